@@ -34,7 +34,7 @@ def closure_op(prog, cpath):
             continue
         r = strip(p.ret)
         if r[0] == "field" and r[2] == "0" and r[1][0] == "binop":
-            r = r[1]
+            r = r[1]     # (older form; the walker now yields the plain binop for checked arithmetic)
         if r[0] != "binop":
             res.add(("?", show(r), False))
             continue
